@@ -5,6 +5,7 @@ classes (DNS / NTP client and server) do with a payload; connection bookkeeping.
 import PrimaiteModel.Model.C13Recv
 import PrimaiteModel.Lemmas.RegistriesRep
 import PrimaiteModel.Gen.SoftwareRecv
+import PrimaiteModel.Gen.Software
 namespace Primaite.C13
 open Primaite.Lifecycle Primaite.Registries Primaite.Recv
 
@@ -285,6 +286,155 @@ theorem C13_recv_path_eq_receivers (n : Node) (hwf : WF n) (port proto : Nat) (s
       obtain ⟨s, hs, hu⟩ := view_of_meta n u (hwf.1 _ (dget_mem _ _ _ hd))
       simp [hs, hu]
 
+/-- `WF` is an invariant: it holds on every node reachable from an empty node by ANY sequence of operations (installs of
+anything — configured or bare, installed already or not —, uninstalls, requests, ticks, power events, payloads) -/
+theorem C13_wf_reachable (p : Power) (up down : Int) (ops : List Op) :
+    WF (Node.run { power := p, upDur := up, downDur := down } ops) := by
+  obtain ⟨es, h⟩ := rep_run ops _ [] (C13_rep_init p up down)
+  exact wf_of_rep _ es h
+
+/-- … and one operation keeps it, from any node whose registries agree -/
+theorem C13_wf_step (n : Node) (es : List Entry) (h : Rep n es) (op : Op) : WF (n.step op).1 := by
+  obtain ⟨es', h'⟩ := rep_step n es h op
+  exact wf_of_rep _ es' h'
+
+/-- **On every reachable node the receive path translated from the source IS `Node.receivers`** — no hypothesis:
+after any operation sequence from an empty node, for every port, protocol and payload kind, the objects whose `receive`
+the model calls are exactly those the translation of `receive_payload_from_session_manager` names, in the same order. -/
+theorem C13_recv_path_reachable (p : Power) (up down : Int) (ops : List Op) (port proto : Nat) (scan : Bool) :
+    let n := Node.run { power := p, upDur := up, downDur := down } ops
+    n.receivers port proto scan = some (recvUids n port proto scan) :=
+  C13_recv_path_eq_receivers _ (C13_wf_reachable p up down ops) port proto scan
+
+/-! ### payload processing may write `health_state_actual`, and nothing else of the lifecycle layer
+
+`forget n` blanks every `health_state_actual`.  Everything the receive path and the frame filters read — power, registries,
+operating states, ports, listening ports — is a function of `forget n`. -/
+
+theorem findSvc_forget (n : Node) (u : Nat) :
+    (forget n).findSvc u = (n.findSvc u).map (fun i => { i with s := { i.s with sw := { i.s.sw with actual := .unused } } }) :=
+  find_map_meta_svc n.svcs (fun i => { i.s with sw := { i.s.sw with actual := .unused } }) u
+
+theorem findApp_forget (n : Node) (u : Nat) :
+    (forget n).findApp u = (n.findApp u).map (fun i => { i with a := { i.a with sw := { i.a.sw with actual := .unused } } }) :=
+  find_map_meta_app n.apps (fun i => { i.a with sw := { i.a.sw with actual := .unused } }) u
+
+theorem isRunning_forget (n : Node) (u : Nat) : (forget n).isRunning u = n.isRunning u := by
+  unfold Node.isRunning
+  rw [findSvc_forget, findApp_forget]
+  cases n.findSvc u <;> cases n.findApp u <;> rfl
+
+theorem metaOf_forget (n : Node) (u : Nat) : (forget n).metaOf u = n.metaOf u := by
+  unfold Node.metaOf
+  rw [findSvc_forget, findApp_forget]
+  cases n.findSvc u <;> cases n.findApp u <;> rfl
+
+theorem handles_forget (n : Node) (u : Nat) : (forget n).handles u = n.handles u := by
+  unfold Node.handles
+  rw [isRunning_forget]; rfl
+
+theorem view_forget (n : Node) (u : Nat) : view (forget n) u = view n u := by
+  unfold view
+  rw [metaOf_forget, isRunning_forget]
+
+theorem recvCalls_forget (n : Node) (port proto : Nat) (scan : Bool) : recvCalls (forget n) port proto scan = recvCalls n port proto scan := by
+  have h1 : softwareGet (forget n) = softwareGet n := by
+    funext name; unfold softwareGet
+    show (dget name n.software).bind (view (forget n)) = _
+    cases dget name n.software <;> simp [view_forget]
+  have h2 : portMapGet (forget n) = portMapGet n := by
+    funext k; unfold portMapGet
+    show (dget k n.portMap).bind (view (forget n)) = _
+    cases dget k n.portMap <;> simp [view_forget]
+  have h3 : softwareValues (forget n) = softwareValues n := by
+    unfold softwareValues
+    show n.software.filterMap (fun e => view (forget n) e.2) = _
+    simp only [view_forget]
+  unfold recvCalls
+  rw [h1, h2, h3]
+
+theorem openPorts_forget (n : Node) : (forget n).openPorts = n.openPorts := by
+  unfold Node.openPorts
+  show n.portMap.flatMap _ = n.portMap.flatMap _
+  simp only [isRunning_forget, metaOf_forget]
+
+theorem frameAccepted_forget (n : Node) (h : Hdr) (scan : Bool) : (forget n).frameAccepted h scan = n.frameAccepted h scan := by
+  unfold Node.frameAccepted
+  rw [openPorts_forget]
+  have hn : ∀ u, ((forget n).findApp u).any (fun i => i.a.st == .running) = (n.findApp u).any (fun i => i.a.st == .running) := by
+    intro u; rw [findApp_forget]; cases n.findApp u <;> rfl
+  show (h == .icmp || _ || ((match dget "nmap" n.software with
+        | some u => ((forget n).findApp u).any (fun i => i.a.st == .running)
+        | none => false) && scan)) = _
+  simp only [hn]
+  rfl
+
+theorem forget_setActual (n : Node) (u : Nat) (h : Health) : forget (setActual n u h) = forget n := by
+  unfold forget setActual
+  simp only [List.map_map, Function.comp_def]
+  congr 1
+  · apply List.map_congr_left
+    intro i _
+    by_cases hu : i.m.uid = u <;> simp [hu]
+  · apply List.map_congr_left
+    intro i _
+    by_cases hu : i.m.uid = u <;> simp [hu]
+
+theorem setActual_software (n : Node) (u : Nat) (h : Health) : (setActual n u h).software = n.software := rfl
+
+/-- two nodes that differ only in health values -/
+def LifeEq (n n' : Node) : Prop := forget n' = forget n
+
+theorem LifeEq.handles {n n' : Node} (h : LifeEq n n') (u : Nat) : n'.handles u = n.handles u := by
+  rw [← handles_forget n', h, handles_forget]
+
+theorem LifeEq.recvCalls {n n' : Node} (h : LifeEq n n') (port proto : Nat) (scan : Bool) :
+    recvCalls n' port proto scan = recvCalls n port proto scan := by
+  rw [← recvCalls_forget n', h, recvCalls_forget]
+
+theorem LifeEq.frameAccepted {n n' : Node} (h : LifeEq n n') (hd : Hdr) (scan : Bool) :
+    n'.frameAccepted hd scan = n.frameAccepted hd scan := by
+  rw [← frameAccepted_forget n', h, frameAccepted_forget]
+
+theorem LifeEq.isOn {n n' : Node} (h : LifeEq n n') : n'.isOn = n.isOn := by
+  have : (forget n').isOn = (forget n).isOn := by rw [h]
+  exact this
+
+theorem LifeEq.isRunning {n n' : Node} (h : LifeEq n n') (u : Nat) : n'.isRunning u = n.isRunning u := by
+  rw [← isRunning_forget n', h, isRunning_forget]
+
+theorem LifeEq.software {n n' : Node} (h : LifeEq n n') : n'.software = n.software := by
+  have : (forget n').software = (forget n).software := by rw [h]
+  exact this
+
+theorem LifeEq.refl (n : Node) : LifeEq n n := rfl
+theorem LifeEq.trans {a b c : Node} (h1 : LifeEq a b) (h2 : LifeEq b c) : LifeEq a c := by
+  unfold LifeEq at *; rw [h2, h1]
+
+/-- `health_state_actual` of another object is untouched by `set_health_state` on `u` -/
+theorem actualOf_setActual_ne (n : Node) (u v : Nat) (h : Health) (hv : v ≠ u) : actualOf (setActual n u h) v = actualOf n v := by
+  unfold actualOf
+  have hs : (setActual n u h).findSvc v = (n.findSvc v).map
+      (fun i => { i with s := if i.m.uid = u then { i.s with sw := { i.s.sw with actual := h } } else i.s }) :=
+    find_map_meta_svc n.svcs _ v
+  have ha : (setActual n u h).findApp v = (n.findApp v).map
+      (fun i => { i with a := if i.m.uid = u then { i.a with sw := { i.a.sw with actual := h } } else i.a }) :=
+    find_map_meta_app n.apps _ v
+  rw [hs, ha]
+  cases hf : n.findSvc v with
+  | some i =>
+    have : i.m.uid = v := by
+      have := List.find?_some hf; simpa using this
+    simp [this, hv]
+  | none =>
+    cases hg : n.findApp v with
+    | none => rfl
+    | some i =>
+      have : i.m.uid = v := by
+        have := List.find?_some hg; simpa using this
+      simp [this, hv]
+
+
 /-! ### what a delivery does: only RUNNING software on an ON node processes the payload -/
 
 theorem dget_dset {κ ν} [DecidableEq κ] (l : List (κ × ν)) (k k' : κ) (v : ν) :
@@ -302,95 +452,130 @@ theorem dget_dset {κ ν} [DecidableEq κ] (l : List (κ × ν)) (k k' : κ) (v 
         simp [dset, dget, h1, this]
       · simp [dset, dget, h1, h2, ih]
 
-/-- behind a closed running-guard `receive` does nothing: no state change, nothing sent, payload untouched, returns False -/
+/-- behind a closed running-guard `receive` does nothing: no state change, nothing sent, payload untouched, returns False —
+for the DNS / NTP classes (`receive`) and for every modelled class (`receiveH`: no health write either) -/
 theorem C13_receive_blocked (d : Data) (now : Nat) (p : Payload) : d.receive false now p = (d, .f, [], p) := rfl
 
-/-- one `receive` call: lifecycle and registries untouched; other objects' data untouched; an object that may not act
-(node not ON, or not RUNNING) keeps its data, sends nothing, leaves the payload alone and answers False (`none`: unmodelled
-class, only the guard is known); whatever is sent is sent by the object itself. -/
+theorem C13_receiveH_blocked (d : Data) (now : Nat) (hasDb : Option Bool) (p : Payload) :
+    d.receiveH false now hasDb p = ((d, .f, [], p), none) := rfl
+
+/-- what one `receive` call may do to the lifecycle layer: nothing, or — only if the object may act — a write of its OWN
+`health_state_actual` -/
+def NStep (n : Node) (u : Nat) (n' : Node) : Prop := n' = n ∨ (n.handles u = true ∧ ∃ h, n' = setActual n u h)
+
+theorem NStep.lifeEq {n n' : Node} {u : Nat} (h : NStep n u n') : LifeEq n n' := by
+  rcases h with rfl | ⟨_, hh, rfl⟩
+  · rfl
+  · exact forget_setActual n u hh
+
+theorem NStep.actualOf_ne {n n' : Node} {u : Nat} (h : NStep n u n') (v : Nat) (hv : v ≠ u) : actualOf n' v = actualOf n v := by
+  rcases h with rfl | ⟨_, hh, rfl⟩
+  · rfl
+  · exact actualOf_setActual_ne n u v hh hv
+
+/-- one `receive` call: registries, power and operating states untouched (`NStep`: at most the object's own health, and only
+if it may act); other objects' data untouched; an object that may not act (node not ON, or not RUNNING) keeps its data, its
+health and the whole node, sends nothing, leaves the payload alone and answers False (`none`: unmodelled class, only the guard
+is known); whatever is sent is sent by the object itself. -/
 theorem recvAt_spec (nn : NetNode) (u port proto : Nat) (p : Payload) :
-    (nn.recvAt u port proto p).1.n = nn.n ∧ (nn.recvAt u port proto p).1.now = nn.now ∧
+    NStep nn.n u (nn.recvAt u port proto p).1.n ∧ (nn.recvAt u port proto p).1.now = nn.now ∧
     (nn.recvAt u port proto p).1.addr = nn.addr ∧
     (nn.recvAt u port proto p).2.1.uid = u ∧ (nn.recvAt u port proto p).2.1.handled = nn.n.handles u ∧
     (∀ v, v ≠ u → dget v (nn.recvAt u port proto p).1.data = dget v nn.data) ∧
     (nn.n.handles u = false →
+      (nn.recvAt u port proto p).1.n = nn.n ∧
       dget u (nn.recvAt u port proto p).1.data = dget u nn.data ∧ (nn.recvAt u port proto p).2.2.1 = [] ∧
       (nn.recvAt u port proto p).2.2.2 = p ∧
       ((nn.recvAt u port proto p).2.1.ret = none ∨ (nn.recvAt u port proto p).2.1.ret = some .f)) ∧
     (∀ s ∈ (nn.recvAt u port proto p).2.2.1, s.src = u) := by
   unfold NetNode.recvAt
   cases hd : dget u nn.data with
-  | none => simp [hd]
+  | none => simp [hd, NStep]
   | some d =>
-    simp only [true_and]
-    refine ⟨?_, ?_, ?_⟩
-    · intro v hv
-      rw [dget_dset]
-      simp [Ne.symm hv]
-    · intro hh
-      simp only [hh, C13_receive_blocked]
-      refine ⟨?_, by simp, by simp⟩
-      rw [dget_dset]; simp [hd]
-    · intro s hs
-      simp only [List.mem_map] at hs
-      obtain ⟨x, _, rfl⟩ := hs
-      rfl
+    cases hc : nn.n.handles u with
+    | false =>
+      simp only [C13_receiveH_blocked, NStep, applyHealthWrite]
+      refine ⟨by simp, by simp, by simp, by simp, by simp, ?_, ?_, ?_⟩
+      · intro v hv; rw [dget_dset]; simp [Ne.symm hv]
+      · intro _
+        refine ⟨by simp, ?_, by simp, by simp, by simp⟩
+        rw [dget_dset]; simp [hd]
+      · intro s hs; simp at hs
+    | true =>
+      rcases hr : d.receiveH true nn.now nn.dbVerdict p with ⟨⟨d', r, out, p'⟩, hw⟩
+      simp only [hr]
+      refine ⟨?_, by simp, by simp, by simp, by simp, ?_, ?_, ?_⟩
+      · cases hw with
+        | none => exact Or.inl rfl
+        | some h => exact Or.inr ⟨hc, h, rfl⟩
+      · intro v hv; rw [dget_dset]; simp [Ne.symm hv]
+      · intro hh; cases hh
+      · intro s hs
+        simp only [List.mem_map] at hs
+        obtain ⟨x, _, rfl⟩ := hs
+        rfl
 
 /-- a whole delivery (any list of `receive` calls, any port, protocol and payload) -/
 theorem deliverList_spec (calls : List (Nat × Bool)) (nn : NetNode) (port proto : Nat) (p : Payload) :
-    (nn.deliverList port proto p calls).1.n = nn.n ∧ (nn.deliverList port proto p calls).1.now = nn.now ∧
-    (∀ v, nn.n.handles v = false → dget v (nn.deliverList port proto p calls).1.data = dget v nn.data) ∧
-    (∀ v, v ∉ calls.map (·.1) → dget v (nn.deliverList port proto p calls).1.data = dget v nn.data) ∧
+    LifeEq nn.n (nn.deliverList port proto p calls).1.n ∧ (nn.deliverList port proto p calls).1.now = nn.now ∧
+    (∀ v, nn.n.handles v = false → dget v (nn.deliverList port proto p calls).1.data = dget v nn.data ∧
+        actualOf (nn.deliverList port proto p calls).1.n v = actualOf nn.n v) ∧
+    (∀ v, v ∉ calls.map (·.1) → dget v (nn.deliverList port proto p calls).1.data = dget v nn.data ∧
+        actualOf (nn.deliverList port proto p calls).1.n v = actualOf nn.n v) ∧
     (∀ s ∈ (nn.deliverList port proto p calls).2.2, nn.n.handles s.src = true ∧ s.src ∈ calls.map (·.1)) ∧
     (nn.deliverList port proto p calls).2.1.map (·.uid) = calls.map (·.1) ∧
     (∀ x ∈ (nn.deliverList port proto p calls).2.1,
       x.handled = nn.n.handles x.uid ∧ (x.handled = false → x.ret = none ∨ x.ret = some .f)) := by
   induction calls generalizing nn p with
-  | nil => simp [NetNode.deliverList]
+  | nil => simp [NetNode.deliverList, LifeEq]
   | cons c us ih =>
     obtain ⟨u, copy⟩ := c
     obtain ⟨h1, h2, _, h4, h5, h6, h7, h8⟩ := recvAt_spec nn u port proto p
+    have hle := h1.lifeEq
     simp only [NetNode.deliverList]
     obtain ⟨i1, i2, i3, i4, i5, i6, i7⟩ :=
       ih (nn.recvAt u port proto p).1 (if copy = true then p else (nn.recvAt u port proto p).2.2.2)
-    rw [h1] at i1 i3 i5 i7
-    refine ⟨i1, i2.trans h2, ?_, ?_, ?_, ?_, ?_⟩
+    have hh : ∀ v, (nn.recvAt u port proto p).1.n.handles v = nn.n.handles v := fun v => hle.handles v
+    refine ⟨LifeEq.trans hle i1, i2.trans h2, ?_, ?_, ?_, ?_, ?_⟩
     · intro v hv
-      rw [i3 v hv]
+      obtain ⟨a, b⟩ := i3 v (by rw [hh]; exact hv)
       by_cases hvu : v = u
-      · subst hvu; exact (h7 hv).1
-      · exact h6 v hvu
+      · subst hvu
+        obtain ⟨e1, e2, _⟩ := h7 hv
+        exact ⟨by rw [a, e2], by rw [b, e1]⟩
+      · exact ⟨by rw [a, h6 v hvu], by rw [b, h1.actualOf_ne v hvu]⟩
     · intro v hv
       simp only [List.map_cons, List.mem_cons, not_or] at hv
-      rw [i4 v hv.2]
-      exact h6 v hv.1
+      obtain ⟨a, b⟩ := i4 v hv.2
+      exact ⟨by rw [a, h6 v hv.1], by rw [b, h1.actualOf_ne v hv.1]⟩
     · intro s hs
       simp only [List.mem_append] at hs
       rcases hs with hs | hs
       · have hsrc := h8 s hs
         refine ⟨?_, by simp [hsrc]⟩
-        cases hh : nn.n.handles u with
-        | true => rw [hsrc, hh]
-        | false => rw [(h7 hh).2.1] at hs; cases hs
+        cases hc : nn.n.handles u with
+        | true => rw [hsrc, hc]
+        | false => rw [(h7 hc).2.2.1] at hs; cases hs
       · obtain ⟨a, b⟩ := i5 s hs
-        exact ⟨a, by simp [b]⟩
+        exact ⟨by rw [← hh]; exact a, by simp [b]⟩
     · simp [h4, i6]
     · intro x hx
       simp only [List.mem_cons] at hx
       rcases hx with rfl | hx
       · rw [h4, h5]
-        refine ⟨rfl, fun hh => ?_⟩
-        exact (h7 hh).2.2.2
-      · exact i7 x hx
+        exact ⟨rfl, fun hc => (h7 hc).2.2.2.2⟩
+      · obtain ⟨a, b⟩ := i7 x hx
+        exact ⟨by rw [a, hh], b⟩
 
 /-- **Only RUNNING software is handed a payload.**  For every node state (registries, lifecycle states, power), every
 port, protocol and payload, after `receive_payload_from_session_manager` has called `receive` on every receiver:
-lifecycle and registries are as before; the data of every object that is not RUNNING (or whose node is not ON) is as before;
-every payload sent was sent by a RUNNING object on an ON node that was a receiver; every `receive` of a not-running object
-answered False. -/
+registries, power and every operating state are as before (`LifeEq`: only `health_state_actual` values may differ); the data
+AND the health of every object that is not RUNNING (or whose node is not ON) are as before; every payload sent was sent by a
+RUNNING object on an ON node that was a receiver; every `receive` of a not-running object answered False. -/
 theorem C13_payload_only_running (nn : NetNode) (port proto : Nat) (p : Payload) :
-    (nn.deliver port proto p).1.n = nn.n ∧
-    (∀ v, ¬ (nn.n.isOn = true ∧ nn.n.isRunning v = true) → dget v (nn.deliver port proto p).1.data = dget v nn.data) ∧
+    LifeEq nn.n (nn.deliver port proto p).1.n ∧
+    (∀ v, ¬ (nn.n.isOn = true ∧ nn.n.isRunning v = true) →
+      dget v (nn.deliver port proto p).1.data = dget v nn.data ∧ actualOf (nn.deliver port proto p).1.n v = actualOf nn.n v) ∧
     (∀ s ∈ (nn.deliver port proto p).2.2, nn.n.isOn = true ∧ nn.n.isRunning s.src = true ∧
         s.src ∈ recvUids nn.n port proto p.isScan) ∧
     (∀ x ∈ (nn.deliver port proto p).2.1, x.handled = (nn.n.isOn && nn.n.isRunning x.uid) ∧
@@ -412,7 +597,8 @@ theorem C13_payload_only_running (nn : NetNode) (port proto : Nat) (p : Payload)
 /-- the same through `HostNode.receive_frame` + `SessionManager.receive_frame` -/
 theorem C13_frame_payload_only_running (nn : NetNode) (h : Hdr) (p : Payload) (nn' : NetNode) (recs : List RecvRec)
     (sents : List Sent) (hf : nn.frame h p = some (nn', recs, sents)) :
-    nn'.n = nn.n ∧ (∀ v, ¬ (nn.n.isOn = true ∧ nn.n.isRunning v = true) → dget v nn'.data = dget v nn.data) ∧
+    LifeEq nn.n nn'.n ∧
+    (∀ v, ¬ (nn.n.isOn = true ∧ nn.n.isRunning v = true) → dget v nn'.data = dget v nn.data ∧ actualOf nn'.n v = actualOf nn.n v) ∧
     (∀ s ∈ sents, nn.n.isOn = true ∧ nn.n.isRunning s.src = true) := by
   unfold NetNode.frame at hf
   split at hf
@@ -439,41 +625,52 @@ example :
 
 /-! ## 4. what the modelled classes do with a payload they accept -/
 
-/-- **A reply is never answered** (so two servers cannot exchange packets without end — the defect repaired in this round):
-whatever the class and its data, a payload that carries a reply triggers no send. -/
-theorem C13_reply_never_answered (d : Data) (canAct : Bool) (now : Nat) (p : Payload) (hp : p.isReply = true) :
-    (d.receive canAct now p).2.2.1 = [] := by
+/-- **A reply is never answered** (so two servers cannot exchange packets without end — the defect repaired in round 3):
+whatever the class and its data, a payload that carries a reply (DNS reply, NTP reply, HTTP response) triggers no send and is
+left as it is. -/
+theorem C13_reply_never_answered (d : Data) (canAct : Bool) (now : Nat) (hasDb : Option Bool) (p : Payload) (hp : p.isReply = true) :
+    (d.receiveH canAct now hasDb p).1.2.2.1 = [] ∧ (d.receiveH canAct now hasDb p).1.2.2.2 = p := by
   cases canAct
-  · rfl
+  · exact ⟨rfl, rfl⟩
   · cases p with
     | junk => simp [Payload.isReply] at hp
     | portScan => simp [Payload.isReply] at hp
+    | httpReq m pa i => simp [Payload.isReply] at hp
+    | httpResp c => cases d <;> exact ⟨rfl, rfl⟩
     | dns name r =>
       cases r with
       | none => simp [Payload.isReply] at hp
-      | some o => cases d <;> cases o <;> rfl
+      | some o => cases d <;> cases o <;> exact ⟨rfl, rfl⟩
     | ntp r =>
       cases r with
       | none => simp [Payload.isReply] at hp
-      | some t => cases d <;> rfl
+      | some t => cases d <;> exact ⟨rfl, rfl⟩
 
-/-- … and everything a modelled class sends in reaction to a payload is a reply, sent back along the session -/
-theorem C13_sends_are_replies (d : Data) (canAct : Bool) (now : Nat) (p : Payload) :
-    ∀ x ∈ (d.receive canAct now p).2.2.1, x.1 = .session ∧ x.2.isReply = true := by
+/-- … and everything a modelled class sends in reaction to a payload is a reply, sent back along the session; at most one;
+the payload object afterwards is what it was or carries a reply -/
+theorem C13_sends_are_replies (d : Data) (canAct : Bool) (now : Nat) (hasDb : Option Bool) (p : Payload) :
+    (∀ x ∈ (d.receiveH canAct now hasDb p).1.2.2.1, x.1 = .session ∧ x.2.isReply = true) ∧
+    (d.receiveH canAct now hasDb p).1.2.2.1.length ≤ 1 ∧
+    ((d.receiveH canAct now hasDb p).1.2.2.2 = p ∨ (d.receiveH canAct now hasDb p).1.2.2.2.isReply = true) := by
   cases canAct
-  · intro x hx; cases hx
-  · intro x hx
-    cases p with
-    | junk => cases d <;> simp [Data.receive] at hx
-    | portScan => cases d <;> simp [Data.receive] at hx
+  · refine ⟨?_, ?_, Or.inl rfl⟩
+    · intro x hx; rw [C13_receiveH_blocked] at hx; cases hx
+    · rw [C13_receiveH_blocked]; exact Nat.zero_le _
+  · cases p with
+    | junk => cases d <;> simp [Data.receiveH, Data.receive]
+    | portScan => cases d <;> simp [Data.receiveH, Data.receive]
+    | httpResp c => cases d <;> simp [Data.receiveH, Data.receive]
+    | httpReq m pa i =>
+      cases d <;> simp [Data.receiveH, Data.receive]
+      cases m <;> simp [Payload.isReply]
     | dns name r =>
       cases r with
-      | none => cases d <;> simp [Data.receive] at hx <;> (subst hx; exact ⟨rfl, rfl⟩)
-      | some o => cases d <;> cases o <;> simp [Data.receive] at hx
+      | none => cases d <;> simp [Data.receiveH, Data.receive, Payload.isReply]
+      | some o => cases d <;> cases o <;> simp [Data.receiveH, Data.receive]
     | ntp r =>
       cases r with
-      | none => cases d <;> simp [Data.receive] at hx <;> (subst hx; exact ⟨rfl, rfl⟩)
-      | some t => cases d <;> simp [Data.receive] at hx
+      | none => cases d <;> simp [Data.receiveH, Data.receive, Payload.isReply]
+      | some t => cases d <;> simp [Data.receiveH, Data.receive]
 
 /-- **DNS server**: a request is answered with exactly what the table holds for the requested name — the registered address,
 or "none" — sent back along the session and written into the packet; the table is untouched; the return value says whether
@@ -535,6 +732,68 @@ theorem C13_ntp_receive (now : Nat) (t : Option Nat) (srv : Option Nat) (p : Pay
       | _ => (.ntpClient t srv, .f, [], p)) := by
   constructor <;> cases p <;> simp [Data.receive] <;> (rename_i r; cases r <;> simp [Data.receive])
 
+/-- **Web server, status code.**  `GET` of the site root → 200; of a `users…` path → 200 with health GOOD when the database
+answers the query, 404 with health COMPROMISED when the query fails, 500 (health untouched, nothing cached) when no database
+connection can be had — a cached connection is reused, otherwise the node's database client is asked once and the connection
+it hands out is cached; of any other path → 404. -/
+theorem C13_web_get_status (path : PathKind) (conn db : Option Bool) :
+    webGet path conn db =
+      match path with
+      | .root => (200, conn, none)
+      | .other => (404, conn, none)
+      | .users =>
+        match (match conn with | some ok => some ok | none => db) with
+        | none => (500, none, none)
+        | some true => (200, some true, some .good)
+        | some false => (404, some false, some .compromised) := by
+  cases path with
+  | root => rfl
+  | other => rfl
+  | users =>
+    cases conn with
+    | some ok => cases ok <;> rfl
+    | none =>
+      cases db with
+      | none => rfl
+      | some ok => cases ok <;> rfl
+
+/-- **Web server, `receive`.**  A RUNNING web server answers every HTTP request with exactly one response, sent back along the
+session, and records its status in `response_codes_this_timestep`: GET as `C13_web_get_status` says, POST and any other method
+405 (every response carries a status); returns True iff the status is 200; health is written only by a `users…` GET that got
+a connection.  Anything that is not an HTTP request is refused without effect. -/
+theorem C13_web_server_receive (codes : List Nat) (conn : Option Bool) (now : Nat) (db : Option Bool) (p : Payload) :
+    (Data.webServer codes conn).receiveH true now db p =
+      match p with
+      | .httpReq .get path _ =>
+        ((.webServer (codes ++ [(webGet path conn db).1]) (webGet path conn db).2.1,
+          Ret.ofBool ((webGet path conn db).1 == 200), [(.session, .httpResp (webGet path conn db).1)], p),
+         (webGet path conn db).2.2)
+      | .httpReq _ _ _ => ((.webServer (codes ++ [405]) conn, .f, [(.session, .httpResp 405)], p), none)
+      | _ => ((.webServer codes conn, .f, [], p), none) := by
+  cases p with
+  | httpReq m path i => cases m <;> rfl
+  | dns name r => cases r <;> rfl
+  | ntp r => cases r <;> rfl
+  | _ => rfl
+
+/-- **Web browser, `receive`**: an HTTP response becomes `latest_response` (True); anything else is refused; history and the
+configured target are not touched by `receive`. -/
+theorem C13_web_browser_receive (latest : Option (Option Nat)) (hist : List (Nat × Option (Option Nat))) (tgt : Option Nat)
+    (now : Nat) (db : Option Bool) (p : Payload) :
+    (Data.webBrowser latest hist tgt).receiveH true now db p =
+      match p with
+      | .httpResp code => ((.webBrowser (some (some code)) hist tgt, .t, [], p), none)
+      | _ => ((.webBrowser latest hist tgt, .f, [], p), none) := by
+  cases p with
+  | dns name r => cases r <;> rfl
+  | ntp r => cases r <;> rfl
+  | _ => rfl
+
+/-- a web server that is not RUNNING (or whose node is not ON) answers nothing, records nothing, writes no health; a browser
+that is not RUNNING keeps its `latest_response` (instances of `C13_receiveH_blocked`, stated for the two classes) -/
+theorem C13_web_not_running (d : Data) (now : Nat) (hasDb : Option Bool) (p : Payload) :
+    d.receiveH false now hasDb p = ((d, .f, [], p), none) := rfl
+
 /-! ### two nodes: the transport keeps the running-guard, and a lookup / a time request end to end -/
 
 theorem get_set_same (w : World) (side : Side) (nn : NetNode) : (w.set side nn).get side = nn := by
@@ -545,30 +804,42 @@ theorem get_set_other (w : World) (side : Side) (nn : NetNode) : (w.set side nn)
 
 /-- what `World.run` may change: nothing of either node's lifecycle / registries, no data of an object that may not act -/
 def Frame (w w' : World) : Prop :=
-  (∀ side, (w'.get side).n = (w.get side).n ∧ (w'.get side).addr = (w.get side).addr ∧ (w'.get side).now = (w.get side).now) ∧
-  (∀ side v, (w.get side).n.handles v = false → dget v (w'.get side).data = dget v (w.get side).data) ∧
+  (∀ side, LifeEq (w.get side).n (w'.get side).n ∧ (w'.get side).addr = (w.get side).addr ∧ (w'.get side).now = (w.get side).now) ∧
+  (∀ side v, (w.get side).n.handles v = false →
+    dget v (w'.get side).data = dget v (w.get side).data ∧ actualOf (w'.get side).n v = actualOf (w.get side).n v) ∧
   (∃ extra, w'.log = w.log ++ extra ∧ ∀ e ∈ extra, e.2.handled = (w.get e.1).n.handles e.2.uid ∧
       (e.2.handled = false → e.2.ret = none ∨ e.2.ret = some .f))
 
 theorem Frame.refl (w : World) : Frame w w :=
-  ⟨fun _ => ⟨rfl, rfl, rfl⟩, fun _ _ _ => rfl, [], by simp, by simp⟩
+  ⟨fun _ => ⟨LifeEq.refl _, rfl, rfl⟩, fun _ _ _ => ⟨rfl, rfl⟩, [], by simp, by simp⟩
 
 theorem Frame.trans {w1 w2 w3 : World} (h12 : Frame w1 w2) (h23 : Frame w2 w3) : Frame w1 w3 := by
   obtain ⟨a1, b1, e1, c1, d1⟩ := h12
   obtain ⟨a2, b2, e2, c2, d2⟩ := h23
-  refine ⟨fun side => ⟨(a2 side).1.trans (a1 side).1, (a2 side).2.1.trans (a1 side).2.1, (a2 side).2.2.trans (a1 side).2.2⟩,
+  refine ⟨fun side => ⟨LifeEq.trans (a1 side).1 (a2 side).1, (a2 side).2.1.trans (a1 side).2.1, (a2 side).2.2.trans (a1 side).2.2⟩,
     fun side v hv => ?_, e1 ++ e2, by rw [c2, c1, List.append_assoc], ?_⟩
-  · rw [b2 side v (by rw [(a1 side).1]; exact hv), b1 side v hv]
+  · obtain ⟨x1, x2⟩ := b1 side v hv
+    obtain ⟨y1, y2⟩ := b2 side v (by rw [(a1 side).1.handles]; exact hv)
+    exact ⟨y1.trans x1, y2.trans x2⟩
   · intro e he
     rcases List.mem_append.mp he with he | he
     · exact d1 e he
     · have := d2 e he
-      rw [(a1 e.1).1] at this
+      rw [(a1 e.1).1.handles] at this
       exact this
 
+theorem recvAt_blocked_other (nn : NetNode) (u port proto : Nat) (p : Payload) (v : Nat) (hv : nn.n.handles v = false) :
+    dget v (nn.recvAt u port proto p).1.data = dget v nn.data ∧ actualOf (nn.recvAt u port proto p).1.n v = actualOf nn.n v := by
+  obtain ⟨h1, _, _, _, _, h6, h7, _⟩ := recvAt_spec nn u port proto p
+  by_cases hvu : v = u
+  · subst hvu
+    obtain ⟨e1, e2, _⟩ := h7 hv
+    exact ⟨e2, by rw [e1]⟩
+  · exact ⟨h6 v hvu, h1.actualOf_ne v hvu⟩
+
 /-- **The transport keeps the running-guard**: whatever is in flight and however long the exchange (any fuel, any stack of
-pending frames and `receive` calls), no node's lifecycle or registries change, no object that may not act has its data
-changed, and every `receive` call made is recorded with `handled` = "node ON and RUNNING". -/
+pending frames and `receive` calls), no node's registries, power or operating states change (`LifeEq`), no object that may not
+act has its data or its health changed, and every `receive` call made is recorded with `handled` = "node ON and RUNNING". -/
 theorem C13_world_run_frame (f : Nat) (w : World) (items : List World.Item) : Frame w (World.run f w items) := by
   induction f generalizing w items with
   | zero =>
@@ -576,7 +847,8 @@ theorem C13_world_run_frame (f : Nat) (w : World) (items : List World.Item) : Fr
     | nil => simp only [World.run]; exact Frame.refl w
     | cons i rest =>
       simp only [World.run]
-      exact ⟨fun side => by cases side <;> exact ⟨rfl, rfl, rfl⟩, fun side v _ => by cases side <;> rfl, [], by simp, by simp⟩
+      exact ⟨fun side => by cases side <;> exact ⟨LifeEq.refl _, rfl, rfl⟩, fun side v _ => by cases side <;> exact ⟨rfl, rfl⟩,
+        [], by simp, by simp⟩
   | succ f ih =>
     cases items with
     | nil => simp only [World.run]; exact Frame.refl w
@@ -594,19 +866,17 @@ theorem C13_world_run_frame (f : Nat) (w : World) (items : List World.Item) : Fr
           refine Frame.trans ?_ (ih _ _)
           obtain ⟨h1, h2, h3, h4, h5, h6, h7, _⟩ := recvAt_spec (w.get side) u port proto p
           refine ⟨fun sd => ?_, fun sd v hv => ?_, [(side, ((w.get side).recvAt u port proto p).2.1)], rfl, ?_⟩
-          · cases side <;> cases sd <;> first | exact ⟨h1, h3, h2⟩ | exact ⟨rfl, rfl, rfl⟩
+          · cases side <;> cases sd <;> first | exact ⟨h1.lifeEq, h3, h2⟩ | exact ⟨LifeEq.refl _, rfl, rfl⟩
           · cases side <;> cases sd <;> first
-              | (by_cases hvu : v = u
-                 · subst hvu; exact (h7 hv).1
-                 · exact h6 v hvu)
-              | rfl
+              | exact recvAt_blocked_other (w.get _) u port proto p v hv
+              | exact ⟨rfl, rfl⟩
           · intro e he
             simp only [List.mem_singleton] at he
             subst he
             show (((w.get side).recvAt u port proto p).2.1.handled =
                 (w.get side).n.handles ((w.get side).recvAt u port proto p).2.1.uid) ∧ _
             rw [h4]
-            exact ⟨h5, fun hh => (h7 (h5 ▸ hh)).2.2.2⟩
+            exact ⟨h5, fun hh => (h7 (h5 ▸ hh)).2.2.2.2⟩
 
 /-- hence for every way of starting an exchange (a send, a DNS query, an NTP request, an injected frame) -/
 theorem C13_world_only_running (w : World) (side : Side) (u ip port proto : Nat) (p : Payload) (name : String) (h : Hdr)
@@ -680,7 +950,7 @@ theorem C13_dns_lookup_end_to_end (w : World) (side : Side) (u v : Nat) (name : 
       simp only [Side.other, World.get] at hcl hact hon hacc hpath hsrv hacc2 hpath2 hsact hon1 hloc ⊢ <;>
       (cases hlk : dget name tbl <;>
         simp only [World.dnsQuery, World.send, World.fuel, hloc, World.run, World.get, World.set, NetNode.recvAt, hsrv, hsact,
-          Data.receive, hlk, Bool.not_true, Bool.false_eq_true, if_false, List.map_cons, List.map_nil, List.cons_append,
+          Data.receiveH, Data.receive, applyHealthWrite, hlk, Bool.not_true, Bool.false_eq_true, if_false, List.map_cons, List.map_nil, List.cons_append,
           List.nil_append, World.route, Side.other, World.hdrOf, if_true, hon, hon1, hacc, hacc2, Payload.isScan,
           Bool.and_self, Bool.and_true, hpath, hpath2, hcl, hact, dget_dset, NetNode.dnsCached, beq_self_eq_true,
           Bool.true_and, Option.isSome_none, Option.isSome_some, Ret.ofBool, hm, and_self, and_true, true_and])
@@ -688,7 +958,7 @@ theorem C13_dns_lookup_end_to_end (w : World) (side : Side) (u v : Nat) (name : 
     cases side <;>
       simp only [Side.other, World.get] at hcl hact hon hacc hpath hsrv hacc2 hpath2 hsact hon1 hloc ⊢ <;>
       simp only [World.dnsQuery, World.send, World.fuel, hloc, World.run, World.get, World.set, NetNode.recvAt, hsrv, hsact,
-        Data.receive, Bool.not_false, if_true, List.map_nil, List.nil_append, World.route, Side.other, World.hdrOf, hon,
+        Data.receiveH, Data.receive, applyHealthWrite, Bool.not_false, if_true, List.map_nil, List.nil_append, World.route, Side.other, World.hdrOf, hon,
         hon1, hacc, hacc2, Payload.isScan, Bool.and_self, Bool.and_true, hpath, hpath2, hcl, hact, dget_dset,
         NetNode.dnsCached, beq_self_eq_true, Bool.true_and, hm, Option.isSome_none] <;>
       exact ⟨trivial, trivial⟩
@@ -749,7 +1019,7 @@ theorem C13_ntp_request_end_to_end (w : World) (side : Side) (u v : Nat) (t : Op
     cases side <;>
       simp only [Side.other, World.get] at hcl hon hon1 hacc hpath hsrv hacc2 hpath2 hsact hact ⊢ <;>
       simp only [World.ntpRequest, World.send, World.fuel, World.run, World.get, World.set, NetNode.recvAt, hsrv, hsact,
-        Data.receive, Bool.not_true, Bool.false_eq_true, if_false, List.map_cons, List.map_nil, List.cons_append,
+        Data.receiveH, Data.receive, applyHealthWrite, Bool.not_true, Bool.false_eq_true, if_false, List.map_cons, List.map_nil, List.cons_append,
         List.nil_append, World.route, Side.other, hdrOf_udp, if_true, hon, hon1, hacc, hacc2, Payload.isScan,
         Bool.and_self, Bool.and_true, hpath, hpath2, hcl, hact, dget_dset, NetNode.ntpTime, beq_self_eq_true,
         Bool.true_and, and_self, and_true, true_and] <;>
@@ -759,7 +1029,7 @@ theorem C13_ntp_request_end_to_end (w : World) (side : Side) (u v : Nat) (t : Op
     · cases side <;>
         simp only [Side.other, World.get] at hcl hon hon1 hacc hpath hsrv hacc2 hpath2 hsact ⊢ <;>
         simp only [World.ntpRequest, World.send, World.fuel, World.run, World.get, World.set, NetNode.recvAt, hsrv, hsact,
-          Data.receive, Bool.not_false, if_true, List.map_nil, List.nil_append, World.route, Side.other, hdrOf_udp, hon,
+          Data.receiveH, Data.receive, applyHealthWrite, Bool.not_false, if_true, List.map_nil, List.nil_append, World.route, Side.other, hdrOf_udp, hon,
           hon1, hacc, hacc2, Payload.isScan, Bool.and_self, Bool.and_true, hpath, hpath2, hcl, dget_dset, NetNode.ntpTime,
           beq_self_eq_true, Bool.true_and] <;>
         simp [dget_dset, hcl]
@@ -767,11 +1037,83 @@ theorem C13_ntp_request_end_to_end (w : World) (side : Side) (u v : Nat) (t : Op
       cases side <;>
         simp only [Side.other, World.get] at hcl hon hon1 hacc hpath hsrv hacc2 hpath2 hsact hact ⊢ <;>
         simp only [World.ntpRequest, World.send, World.fuel, World.run, World.get, World.set, NetNode.recvAt, hsrv, hsact, hact,
-          Data.receive, Bool.not_false, Bool.not_true, Bool.false_eq_true, if_false, if_true, List.map_nil, List.map_cons,
+          Data.receiveH, Data.receive, applyHealthWrite, Bool.not_false, Bool.not_true, Bool.false_eq_true, if_false, if_true, List.map_nil, List.map_cons,
           List.cons_append, List.nil_append, World.route, Side.other, hdrOf_udp, hon,
           hon1, hacc, hacc2, Payload.isScan, Bool.and_self, Bool.and_true, hpath, hpath2, hcl, dget_dset, NetNode.ntpTime,
           beq_self_eq_true, Bool.true_and] <;>
         simp [dget_dset, hcl]
+
+/-! ### browsing, end to end -/
+
+theorem hdrOf_tcp (p : Nat) : World.hdrOf p 1 = some (.tcp p) := by simp [World.hdrOf]
+
+theorem isOn_healthWrite (n : Node) (u : Nat) (hw : HealthWrite) : (applyHealthWrite n u hw).isOn = n.isOn := by
+  cases hw <;> rfl
+
+/-- **A page fetch, end to end.**  A RUNNING web browser `u` on an ON node fetches a URL whose host name is in the cache of
+the node's (RUNNING) DNS client and resolves to the peer's address; the peer is ON, the URL's port (80 by default) is owned
+there by a web server `v` as the only receiver, and the browser is the only receiver of that port on its own node, both
+frames accepted.  Then `get_webpage`:
+* if the web server is RUNNING: the status is what `C13_web_get_status` says for the URL's path and the server's database
+  situation; the browser's `latest_response` is that status, its history gains exactly `(url, LOADED status)`, the answer is
+  True iff the status is 200; the server's `response_codes_this_timestep` gains exactly that status;
+* if the web server may not act: nothing answers — `latest_response` stays at the preset 404, the history gains
+  `(url, LOADED 404)`, the answer is False, the server's data is untouched. -/
+theorem C13_browse_end_to_end (w : World) (side : Side) (u dc v : Nat) (url : World.Url) (name : String) (ip : Nat)
+    (latest : Option (Option Nat)) (hist : List (Nat × Option (Option Nat))) (tgt : Option Nat)
+    (cache : List (String × Nat)) (srv : Option Nat) (codes : List Nat) (conn : Option Bool)
+    (hbr : dget u (w.get side).data = some (.webBrowser latest hist tgt))
+    (hact : (w.get side).n.handles u = true)
+    (hhost : url.host = .name name)
+    (hdc : dget "dns-client" (w.get side).n.software = some dc) (hne : u ≠ dc)
+    (hdcd : dget dc (w.get side).data = some (.dnsClient cache srv))
+    (hdcact : (w.get side).n.handles dc = true)
+    (hcached : dget name cache = some ip)
+    (hip : ip = (w.get side.other).addr)
+    (hon : (w.get side.other).n.isOn = true)
+    (hacc : (w.get side.other).n.frameAccepted (.tcp (url.port.getD 80)) false = true)
+    (hpath : recvCalls (w.get side.other).n (url.port.getD 80) 1 false = [(v, false)])
+    (hsrv : dget v (w.get side.other).data = some (.webServer codes conn))
+    (hacc2 : (w.get side).n.frameAccepted (.tcp (url.port.getD 80)) false = true)
+    (hpath2 : recvCalls (w.get side).n (url.port.getD 80) 1 false = [(u, false)]) :
+    let code := (webGet url.path conn (w.get side.other).dbVerdict).1
+    ((w.get side.other).n.handles v = true →
+      (w.browse side u (some url)).2 = .ret (code == 200) ∧
+      dget u ((w.browse side u (some url)).1.get side).data =
+        some (.webBrowser (some (some code)) (hist ++ [(url.id, some (some code))]) tgt) ∧
+      dget v ((w.browse side u (some url)).1.get side.other).data =
+        some (.webServer (codes ++ [code]) (webGet url.path conn (w.get side.other).dbVerdict).2.1)) ∧
+    ((w.get side.other).n.handles v = false →
+      (w.browse side u (some url)).2 = .ret false ∧
+      dget u ((w.browse side u (some url)).1.get side).data =
+        some (.webBrowser (some (some 404)) (hist ++ [(url.id, some (some 404))]) tgt) ∧
+      dget v ((w.browse side u (some url)).1.get side.other).data = some (.webServer codes conn)) := by
+  intro code
+  have hon1 := handles_isOn _ _ hact
+  subst hip
+  have hne' : ¬ dc = u := fun h => hne h.symm
+  have hc : dhas name cache = true := by simp [dhas, hcached]
+  constructor
+  · intro hsact
+    cases side <;>
+      simp only [Side.other, World.get] at hbr hact hdc hdcd hdcact hon hacc hpath hsrv hacc2 hpath2 hsact hon1 ⊢ <;>
+      simp only [World.browse, World.get, World.set, hbr, hact, Bool.not_true, Bool.false_eq_true, if_false, NetNode.setData,
+        hdc, World.dnsQuery, NetNode.dnsLookupLocal, dget_dset, hne, hne', hdcd, hdcact, hc, if_true, hhost, World.Host.text,
+        NetNode.dnsCached, hcached, World.sendOk, Side.other, beq_self_eq_true, hon, hon1, Bool.and_self, Bool.true_and,
+        World.send, World.fuel, World.run, World.route, hdrOf_tcp, hacc, hacc2, Payload.isScan, hpath, hpath2,
+        NetNode.recvAt, hsrv, hsact, Data.receiveH, List.map_cons, List.map_nil, List.cons_append, List.nil_append,
+        isOn_healthWrite, Option.getD_some, Bool.and_true] <;>
+      exact ⟨by simp [code, World.get, Side.other], rfl, rfl⟩
+  · intro hsact
+    cases side <;>
+      simp only [Side.other, World.get] at hbr hact hdc hdcd hdcact hon hacc hpath hsrv hacc2 hpath2 hsact hon1 ⊢ <;>
+      simp only [World.browse, World.get, World.set, hbr, hact, Bool.not_true, Bool.false_eq_true, if_false, NetNode.setData,
+        hdc, World.dnsQuery, NetNode.dnsLookupLocal, dget_dset, hne, hne', hdcd, hdcact, hc, if_true, hhost, World.Host.text,
+        NetNode.dnsCached, hcached, World.sendOk, Side.other, beq_self_eq_true, hon, hon1, Bool.and_self, Bool.true_and,
+        World.send, World.fuel, World.run, World.route, hdrOf_tcp, hacc, hacc2, Payload.isScan, hpath, hpath2,
+        NetNode.recvAt, hsrv, hsact, Data.receiveH, Bool.not_false, applyHealthWrite, List.map_nil, List.nil_append,
+        Option.getD_some, Bool.and_true] <;>
+      exact ⟨by decide, trivial, trivial⟩
 
 /-! ### the transport terminates -/
 
@@ -800,20 +1142,16 @@ theorem recvAt_sends (nn : NetNode) (u port proto : Nat) (p : Payload) :
   cases hd : dget u nn.data with
   | none => simp
   | some d =>
+    obtain ⟨s1, s2, s3⟩ := C13_sends_are_replies d (nn.n.handles u) nn.now nn.dbVerdict p
     simp only
-    cases hc : nn.n.handles u
-    · simp [C13_receive_blocked]
-    · cases p with
-      | junk => cases d <;> simp [Data.receive, Payload.isReply]
-      | portScan => cases d <;> simp [Data.receive, Payload.isReply]
-      | dns name r =>
-        cases r with
-        | none => cases d <;> simp [Data.receive, Payload.isReply]
-        | some o => cases d <;> cases o <;> simp [Data.receive, Payload.isReply]
-      | ntp r =>
-        cases r with
-        | none => cases d <;> simp [Data.receive, Payload.isReply]
-        | some t => cases d <;> simp [Data.receive, Payload.isReply]
+    refine ⟨?_, by simpa using s2, ?_, s3⟩
+    · intro hp
+      have := C13_reply_never_answered d (nn.n.handles u) nn.now nn.dbVerdict p hp
+      exact ⟨by rw [this.1]; rfl, this.2⟩
+    · intro s hs
+      simp only [List.mem_map] at hs
+      obtain ⟨x, hx, rfl⟩ := hs
+      exact (s1 x hx).2
 
 /-- cost of one `receive` call still to be made with payload `p`: the call itself, and — unless `p` carries a reply, which is
 never answered — one reply on the wire (`K + 2`: the frame, at most `K` `receive` calls for it, the end of that delivery) -/
@@ -891,8 +1229,8 @@ theorem C13_world_run_terminates (K : Nat) (f : Nat) (w : World) (items : List W
           simp only [World.run, hR]
           have hs' : Small K { w.set side nn' with log := w.log ++ [(side, r)] } := by
             cases side
-            · exact ⟨by show nn'.n.software.length + 1 ≤ K; rw [h1]; exact hs.1, hs.2⟩
-            · exact ⟨hs.1, by show nn'.n.software.length + 1 ≤ K; rw [h1]; exact hs.2⟩
+            · exact ⟨by show nn'.n.software.length + 1 ≤ K; rw [h1.lifeEq.software]; exact hs.1, hs.2⟩
+            · exact ⟨hs.1, by show nn'.n.software.length + 1 ≤ K; rw [h1.lifeEq.software]; exact hs.2⟩
           have hov : ({ w.set side nn' with log := w.log ++ [(side, r)] } : World).overflow = w.overflow := by
             cases side <;> rfl
           rw [← hov]
@@ -935,6 +1273,222 @@ theorem C13_send_terminates (K : Nat) (w : World) (hs : Small K w) (side : Side)
   simp only [stackCost, itemCost]
   have := Nat.mul_le_mul_left K (callCost_le K p)
   omega
+
+/-! ### the bound `Small K` follows from the class registry
+
+Software is installed from the shipped classes, each under its class's `name`, and a node never holds two programs under one
+name (`Rep.namesNodup`): so a node holds at most as many programs as there are distinct shipped names — a constant
+regenerated from the source (`Gen.Software.classes`). -/
+
+/-- the names under which shipped classes install themselves (regenerated class table) -/
+def shippedNames : List String := (Gen.Software.classes.map (·.2.1)).eraseDups
+
+/-- the operation installs only software of a class named in `S` (every other operation qualifies) -/
+def _root_.Primaite.Registries.Op.installsFrom (S : List String) : Op → Prop
+  | .installSvc c _ _ _ _ => c.name ∈ S
+  | .installApp c _ _ _ _ => c.name ∈ S
+  | .reqInstall _ (some (c, _)) => c.name ∈ S
+  | _ => True
+
+theorem mem_ddel {κ ν} [DecidableEq κ] (l : List (κ × ν)) (k : κ) (x : κ × ν) (h : x ∈ ddel k l) : x ∈ l := by
+  induction l with
+  | nil => simp [ddel] at h
+  | cons a t ih =>
+    obtain ⟨ka, va⟩ := a
+    simp only [ddel] at h
+    by_cases hk : ka = k
+    · simp only [hk, if_true] at h; exact List.mem_cons_of_mem _ h
+    · simp only [hk, if_false, List.mem_cons] at h
+      rcases h with h | h
+      · simp [h]
+      · exact List.mem_cons_of_mem _ (ih h)
+
+theorem uninstall_software_sub (n n' : Node) (name : String) (h : n.uninstall name = some n') :
+    ∀ x ∈ n'.software, x ∈ n.software := by
+  unfold Node.uninstall at h
+  split at h
+  · cases h; exact fun _ hx => hx
+  · split at h
+    · split at h
+      · cases h; exact fun x hx => mem_ddel _ _ x hx
+      · cases h
+    · split at h
+      · split at h
+        · cases h; exact fun x hx => mem_ddel _ _ x hx
+        · cases h
+      · cases h; exact fun x hx => mem_ddel _ _ x hx
+
+theorem evict_software_sub (n n1 : Node) (name : String) (h : n.evict name = some n1) : ∀ x ∈ n1.software, x ∈ n.software := by
+  unfold Node.evict at h
+  split at h
+  · exact uninstall_software_sub n n1 name h
+  · cases h; exact fun _ hx => hx
+
+theorem installSvc_software (n n' : Node) (c : Cls) (cfg : Bool) (l : List Nat) (hl : Health) (f : Int)
+    (h : n.installSvc c cfg l hl f = some n') : ∀ x ∈ n'.software, x ∈ n.software ∨ x.1 = c.name := by
+  unfold Node.installSvc at h
+  split at h
+  · cases h; exact fun x hx => Or.inl hx
+  · cases he : n.evict c.name with
+    | none => simp [he] at h
+    | some n1 =>
+      simp only [he, Option.map_some, Option.some.injEq] at h
+      subst h
+      intro x hx
+      rcases mem_dset _ _ _ x (show x ∈ dset c.name n1.next n1.software from hx) with hx | hx
+      · exact Or.inl (evict_software_sub n n1 c.name he x hx)
+      · exact Or.inr (by rw [hx])
+
+theorem installApp_software (n n' : Node) (c : Cls) (cfg : Bool) (l : List Nat) (hl : Health) (f : Int)
+    (h : n.installApp c cfg l hl f = some n') : ∀ x ∈ n'.software, x ∈ n.software ∨ x.1 = c.name := by
+  unfold Node.installApp at h
+  split at h
+  · cases h; exact fun x hx => Or.inl hx
+  · cases he : n.evict c.name with
+    | none => simp [he] at h
+    | some n1 =>
+      simp only [he, Option.map_some, Option.some.injEq] at h
+      subst h
+      intro x hx
+      rcases mem_dset _ _ _ x (show x ∈ dset c.name n1.next n1.software from hx) with hx | hx
+      · exact Or.inl (evict_software_sub n n1 c.name he x hx)
+      · exact Or.inr (by rw [hx])
+
+/-- one operation: every program listed afterwards was listed before, or is the one the operation installs -/
+theorem step_software_names (S : List String) (n : Node) (op : Op) (hop : op.installsFrom S)
+    (h : ∀ x ∈ n.software, x.1 ∈ S) : ∀ x ∈ (n.step op).1.software, x.1 ∈ S := by
+  have same : ∀ n' : Node, n'.software = n.software → ∀ x ∈ n'.software, x.1 ∈ S := fun n' e x hx => h x (e ▸ hx)
+  cases op with
+  | installSvc c cfg l hl f =>
+    simp only [Node.step]
+    cases hi : n.installSvc c cfg l hl f with
+    | none => exact same n rfl
+    | some n' =>
+      intro x hx
+      rcases installSvc_software n n' c cfg l hl f hi x hx with hx | hx
+      · exact h x hx
+      · rw [hx]; exact hop
+  | installApp c cfg l hl f =>
+    simp only [Node.step]
+    cases hi : n.installApp c cfg l hl f with
+    | none => exact same n rfl
+    | some n' =>
+      intro x hx
+      rcases installApp_software n n' c cfg l hl f hi x hx with hx | hx
+      · exact h x hx
+      · rw [hx]; exact hop
+  | uninstall name =>
+    simp only [Node.step]
+    cases hu : n.uninstall name with
+    | none => exact same n rfl
+    | some n' => exact fun x hx => h x (uninstall_software_sub n n' name hu x hx)
+  | reqInstall name c =>
+    simp only [Node.step]
+    split
+    · exact same n rfl
+    · split
+      · exact same n rfl
+      · cases c with
+        | none => exact same n rfl
+        | some cl =>
+          obtain ⟨c, l⟩ := cl
+          cases hi : n.installApp c false l .good 2 with
+          | none => simp only [hi]; exact same n rfl
+          | some n1 =>
+            simp only [hi]
+            have key : ∀ x ∈ n1.software, x.1 ∈ S := by
+              intro x hx
+              rcases installApp_software n n1 c false l .good 2 hi x hx with hx | hx
+              · exact h x hx
+              · rw [hx]; exact hop
+            split
+            · exact key
+            · exact key
+  | reqUninstall name =>
+    simp only [Node.step]
+    split
+    · exact same n rfl
+    · split
+      · exact same n rfl
+      · cases hu : n.uninstall name with
+        | none => exact same n rfl
+        | some n' => exact fun x hx => h x (uninstall_software_sub n n' name hu x hx)
+  | svcReq name r => exact same _ rfl
+  | appReq name r => exact same _ rfl
+  | svcApi u e =>
+    simp only [Node.step]
+    split
+    · split <;> exact same _ rfl
+    · exact same _ rfl
+  | appApi u e =>
+    simp only [Node.step]
+    split
+    · split <;> exact same _ rfl
+    · exact same _ rfl
+  | tick => simp only [Node.step]; split <;> exact same _ rfl
+  | powerOn =>
+    simp only [Node.step]
+    split
+    · exact same _ rfl
+    · split <;> exact same _ rfl
+  | powerOff =>
+    simp only [Node.step]
+    split
+    · exact same _ rfl
+    · split <;> exact same _ rfl
+  | reqStartup =>
+    simp only [Node.step]
+    split
+    · exact same _ rfl
+    · split <;> exact same _ rfl
+  | reqShutdown =>
+    simp only [Node.step]
+    split
+    · exact same _ rfl
+    · split <;> exact same _ rfl
+  | deliver p pr sc => exact same _ rfl
+  | frame hd sc => simp only [Node.step]; split <;> exact same _ rfl
+  | send u => simp only [Node.step]; split <;> exact same _ rfl
+
+theorem run_software_names (S : List String) (ops : List Op) (n : Node) (hops : ∀ op ∈ ops, op.installsFrom S)
+    (h : ∀ x ∈ n.software, x.1 ∈ S) : ∀ x ∈ (n.run ops).software, x.1 ∈ S := by
+  induction ops generalizing n with
+  | nil => exact h
+  | cons op ops ih =>
+    exact ih _ (fun o ho => hops o (by simp [ho])) (step_software_names S n op (hops op (by simp)) h)
+
+/-- **A node never holds more programs than there are names in the class registry**: after any operation sequence that
+installs from `S`, the software list is no longer than `S`. -/
+theorem C13_software_count_le (S : List String) (p : Power) (up down : Int) (ops : List Op)
+    (hops : ∀ op ∈ ops, op.installsFrom S) :
+    (Node.run { power := p, upDur := up, downDur := down } ops).software.length ≤ S.length := by
+  obtain ⟨es, hr⟩ := rep_run ops _ [] (C13_rep_init p up down)
+  have hn := run_software_names S ops { power := p, upDur := up, downDur := down } hops (by simp)
+  have hnd : ((Node.run { power := p, upDur := up, downDur := down } ops).software.map (·.1)).Nodup := by
+    rw [hr.software]
+    have : (es.map Entry.kv).map (·.1) = es.map (·.name) := by simp [Entry.kv, List.map_map, Function.comp_def]
+    rw [this]; exact hr.namesNodup
+  have := List.Nodup.length_le_of_subset hnd (l₂ := S) (by
+    intro y hy
+    obtain ⟨x, hx, rfl⟩ := List.mem_map.mp hy
+    exact hn x hx)
+  simpa using this
+
+/-- **Every exchange between two nodes built from shipped software terminates** — no bound assumed: both nodes reachable by
+any operation sequences that install shipped classes (whatever their class data, clocks and addresses), any sender, any
+destination, any payload: the transport does not run out of fuel.  The number of shipped names and `fuel` are constants
+(`shippedNames` is regenerated from the source); the arithmetic is `decide`d. -/
+theorem C13_send_terminates_shipped (w : World) (pa pb : Power) (ua da ub db : Int) (opsA opsB : List Op)
+    (hA : w.a.n = Node.run { power := pa, upDur := ua, downDur := da } opsA)
+    (hB : w.b.n = Node.run { power := pb, upDur := ub, downDur := db } opsB)
+    (hopsA : ∀ op ∈ opsA, op.installsFrom shippedNames) (hopsB : ∀ op ∈ opsB, op.installsFrom shippedNames)
+    (side : Side) (u ip port proto : Nat) (p : Payload) :
+    (w.send side u ip port proto p).overflow = w.overflow := by
+  have hs : Small (shippedNames.length + 1) w := by
+    constructor
+    · rw [hA]; exact Nat.succ_le_succ (C13_software_count_le _ pa ua da opsA hopsA)
+    · rw [hB]; exact Nat.succ_le_succ (C13_software_count_le _ pb ub db opsB hopsB)
+  exact C13_send_terminates _ w hs side u ip port proto p (by decide)
 
 /-- non-vacuity: the two-node world of the DNS example is `Small 4`, and `2 + 4 * 7 ≤ fuel` -/
 example : 2 + 4 * (4 + 3) ≤ World.fuel := by decide
@@ -1058,13 +1612,22 @@ theorem C13_gen_method_bodies :
   ("IOSoftware.send", ["if not self._can_perform_action() { return False }", "return self.software_manager.send_payload_to_session_manager(payload=payload, dest_ip_address=dest_ip_address, dest_port=dest_port, ip_protocol=ip_protocol, session_id=session_id)"]),
   ("IOSoftware.receive", ["return self._can_perform_action()"]),
   ("HostNode.receive_frame", ["super().receive_frame(frame, from_network_interface)", "dst_port = None", "if frame.tcp { dst_port = frame.tcp.dst_port } else { if frame.udp { dst_port = frame.udp.dst_port } }", "can_accept_nmap = False", "if self.software_manager.software.get('nmap') { if self.software_manager.software['nmap'].operating_state == ApplicationOperatingState.RUNNING { can_accept_nmap = True } }", "accept_nmap = can_accept_nmap and frame.payload.__class__.__name__ == 'PortScanPayload'", "accept_frame = False", "if frame.icmp or dst_port in self.software_manager.get_open_ports() or accept_nmap { accept_frame = True }", "if accept_frame { self.session_manager.receive_frame(frame, from_network_interface) } else { pass }"]),
-  ("Router.check_send_frame_to_session_manager", ["dst_ip_address = frame.ip.dst_ip_address", "dst_port = None", "if frame.ip.protocol == PROTOCOL_LOOKUP['TCP'] { dst_port = frame.tcp.dst_port } else { if frame.ip.protocol == PROTOCOL_LOOKUP['UDP'] { dst_port = frame.udp.dst_port } }", "if self.ip_is_router_interface(dst_ip_address) and (frame.icmp or dst_port in self.software_manager.get_open_ports()) { return True }", "return False"])] := by
+  ("Router.check_send_frame_to_session_manager", ["dst_ip_address = frame.ip.dst_ip_address", "dst_port = None", "if frame.ip.protocol == PROTOCOL_LOOKUP['TCP'] { dst_port = frame.tcp.dst_port } else { if frame.ip.protocol == PROTOCOL_LOOKUP['UDP'] { dst_port = frame.udp.dst_port } }", "if self.ip_is_router_interface(dst_ip_address) and (frame.icmp or dst_port in self.software_manager.get_open_ports()) { return True }", "return False"]),
+  ("WebServer.receive", ["if not super().receive(payload=payload, session_id=session_id, **kwargs) { return False }", "if not isinstance(payload, HttpRequestPacket) { return False }", "return self._process_http_request(payload=payload, session_id=session_id)"]),
+  ("WebServer._process_http_request", ["response = HttpResponsePacket()", "if payload.request_method == HttpRequestMethod.GET { response = self._handle_get_request(payload=payload) } else { if payload.request_method == HttpRequestMethod.POST { response.status_code = HttpStatusCode.METHOD_NOT_ALLOWED } else { response.status_code = HttpStatusCode.METHOD_NOT_ALLOWED } }", "self.send(payload=response, session_id=session_id)", "self.response_codes_this_timestep.append(response.status_code)", "return response.status_code == HttpStatusCode.OK"]),
+  ("WebServer._handle_get_request", ["response = HttpResponsePacket(status_code=HttpStatusCode.NOT_FOUND, payload=payload)", "parsed_url = urlparse(payload.request_url)", "path = parsed_url.path.strip('/') if parsed_url and parsed_url.path else ''", "if len(path) < 1 { response.status_code = HttpStatusCode.OK }", "if path.startswith('users') { if not self._establish_db_connection() { response.status_code = HttpStatusCode.INTERNAL_SERVER_ERROR; return response }; if self.db_connection.query('SELECT') { self.set_health_state(SoftwareHealthState.GOOD); response.status_code = HttpStatusCode.OK } else { self.set_health_state(SoftwareHealthState.COMPROMISED) } }", "return response"]),
+  ("WebServer._establish_db_connection", ["if self.db_connection { return True }", "db_client = self.software_manager.software.get('database-client')", "if db_client is None { return False }", "self.db_connection: DatabaseClientConnection = db_client.get_new_connection()", "return self.db_connection is not None"]),
+  ("WebBrowser.receive", ["if not super().receive(payload=payload, session_id=session_id, **kwargs) { return False }", "if not isinstance(payload, HttpResponsePacket) { return False }", "self.latest_response = payload", "return True"]),
+  ("WebBrowser.get_webpage", ["url = url or self.config.target_url", "if not self._can_perform_action() { return False }", "self.num_executions += 1", "self.latest_response = HttpResponsePacket(status_code=HttpStatusCode.NOT_FOUND)", "if not url { return False }", "try { parsed_url = urlparse(url) } except Exception { return False }", "dns_client: DNSClient = self.software_manager.software.get('dns-client')", "domain_exists = dns_client.check_domain_exists(target_domain=parsed_url.hostname)", "if domain_exists { self.domain_name_ip_address = dns_client.dns_cache[parsed_url.hostname] } else { try { self.domain_name_ip_address = IPv4Address(parsed_url.hostname) } except Exception { return False } }", "payload = HttpRequestPacket(request_method=HttpRequestMethod.GET, request_url=url)", "if self.send(payload=payload, dest_ip_address=self.domain_name_ip_address, dest_port=parsed_url.port if parsed_url.port else PORT_LOOKUP['HTTP']) { self.history.append(WebBrowser.BrowserHistoryItem(url=url, status=self.BrowserHistoryItem._HistoryItemStatus.LOADED, response_code=self.latest_response.status_code)); return self.latest_response.status_code is HttpStatusCode.OK } else { self.history.append(WebBrowser.BrowserHistoryItem(url=url, status=self.BrowserHistoryItem._HistoryItemStatus.SERVER_UNREACHABLE)); return False }"])] := by
   rfl
 
 /-- well-known ports the end-to-end theorems use, the default capacity of `Conn`, and: no class overrides the connection
 bookkeeping of `IOSoftware` (so `Conn` is the bookkeeping of every shipped class) -/
 theorem C13_gen_recv_constants :
-    Gen.SoftwareRecv.portDNS = 53 ∧ Gen.SoftwareRecv.portNTP = 123 ∧
+    Gen.SoftwareRecv.portDNS = 53 ∧ Gen.SoftwareRecv.portNTP = 123 ∧ Gen.SoftwareRecv.portHTTP = 80 ∧
+    Gen.SoftwareRecv.httpStatusCodes.lookup "OK" = some 200 ∧ Gen.SoftwareRecv.httpStatusCodes.lookup "NOT_FOUND" = some 404 ∧
+    Gen.SoftwareRecv.httpStatusCodes.lookup "METHOD_NOT_ALLOWED" = some 405 ∧
+    Gen.SoftwareRecv.httpStatusCodes.lookup "INTERNAL_SERVER_ERROR" = some 500 ∧
     Gen.SoftwareRecv.maxSessionsDefault = ({} : Conn).maxSessions ∧
     Gen.SoftwareRecv.connectionOverrides = [] := by decide
 
